@@ -90,46 +90,105 @@ def render(name, s, e):
         return f'RAISED {type(ex).__name__}'
 
 
-NORMALISE = {
-    'errno': [(re.compile(r'errno: [A-Za-z_][A-Za-z_0-9]*\(\d+\)|errno: \d+'), 'errno: #')],
-    'Signals': [(re.compile(r'\bSIG[A-Z0-9]+\b|\b\d+\b'), 'SIG#')],
-    'socket': [(re.compile(r'\b(pseudo_)?AF_\w+\b|\bSOCK_\w+\b|\bSOL_SOCKET\b|\bSO_\w+\b|\b0x[0-9a-f]+\b|\b\d+\b'), '#')],
-}
+WINDOWS_SIGNALS = {2: 'SIGINT', 4: 'SIGILL', 8: 'SIGFPE', 11: 'SIGSEGV', 15: 'SIGTERM', 21: 'SIGBREAK', 22: 'SIGABRT'}
+WINDOWS_ERRNO = {k: v for k, v in DW.ERRNO.items() if k <= 14 or k in (16, 17, 18, 19, 20, 21, 22, 23, 24, 25, 27, 28, 29, 30, 31, 32, 33, 34, 36, 38, 40, 41, 42)}
+HOSTS['sparse'] = {'errno': mk_errno(WINDOWS_ERRNO), 'Signals': mk_signals(WINDOWS_SIGNALS),
+                   'socket': mk_socket({0: 'AF_UNSPEC', 2: 'AF_INET', 23: 'AF_INET6'}, {1: 'SOCK_STREAM', 2: 'SOCK_DGRAM', 3: 'SOCK_RAW'}, 0xffff)}
 
 
-def classify(name, cfg, a, b):
-    """signature of a difference between text a (real host) and b (configuration cfg)."""
-    seams = SEAMS if cfg.endswith(':all') else [cfg.split(':')[1]]
-    site = {'BSC_pipe': 'handle_pipe', 'BSC_sigaction': 'handle_sigaction', 'BSC_socket': 'handle_socket',
-            'BSC_socketpair': 'handle_socketpair', 'BSC_socket_delegate': 'handle_socket_delegate',
-            'BSC_getsockopt': 'sockopt_format_level_and_option', 'BSC_setsockopt': 'sockopt_format_level_and_option'}
-    relevant = ['errno']
+def tables(cfg):
+    """effective host tables under configuration cfg: errno {code: name}, signals, families, kinds, SOL_SOCKET."""
+    t = {'errno': dict(REAL['errno'].errorcode), 'sig': {int(m): m.name for m in REAL['Signals']},
+         'af': {int(m): m.name for m in REAL['socket'].AddressFamily}, 'kind': {int(m): m.name for m in REAL['socket'].SocketKind},
+         'sol': REAL['socket'].SOL_SOCKET}
+    if cfg != 'real':
+        host, seam = cfg.split(':')
+        sub = HOSTS[host]
+        if seam in ('errno', 'all'):
+            t['errno'] = dict(sub['errno'].errorcode)
+        if seam in ('Signals', 'all'):
+            t['sig'] = {int(m): m.name for m in sub['Signals']}
+        if seam in ('socket', 'all'):
+            t['af'] = {int(m): m.name for m in sub['socket'].AddressFamily}
+            t['kind'] = {int(m): m.name for m in sub['socket'].SocketKind}
+            t['sol'] = sub['socket'].SOL_SOCKET
+    return t
+
+
+ERR_CLAUSE = re.compile(r'errno: (?:[A-Za-z_][A-Za-z_0-9]*\(\d+\)|\d+)')
+SITE = {'BSC_pipe': 'handle_pipe', 'BSC_sigaction': 'handle_sigaction', 'BSC_socket': 'handle_socket',
+        'BSC_socketpair': 'handle_socketpair', 'BSC_socket_delegate': 'handle_socket_delegate',
+        'BSC_getsockopt': 'sockopt_format_level_and_option', 'BSC_setsockopt': 'sockopt_format_level_and_option'}
+
+
+def predict_tokens(name, s, e, t):
+    """what the K2 mechanism (name looked up BY VALUE in the host's table) shows under tables t:
+    returns ('RAISED', None) or (errno clause or None, {token position: text})."""
+    err = e[0]
+    clause = None
+    if err:
+        clause = f"errno: {t['errno'][err]}({err})" if err in t['errno'] else f'errno: {err}'
+    toks = {}
     if name == 'BSC_sigaction':
-        relevant.append('Signals')
-    if name in site and name not in ('BSC_pipe', 'BSC_sigaction'):
-        relevant.append('socket')
-    x, y = a, b
-    used = []
-    for seam in seams:
-        if seam not in relevant:
-            continue
-        x2, y2 = x, y
-        for rx, rep in NORMALISE[seam]:
-            x2, y2 = rx.sub(rep, x2), rx.sub(rep, y2)
-        if x2 != y2 or (x2, y2) != (x, y):
-            if x != y:
-                used.append(seam)
-        x, y = x2, y2
-        if x == y:
-            break
-    raised = (a.startswith('RAISED ValueError') or b.startswith('RAISED ValueError')) and len(relevant) > 1
-    if x == y or raised:
-        table_seams = [u for u in used if u != 'errno']
-        if raised or table_seams:
-            seam = relevant[-1]
-            return f'host-table:{seam}@{site[name]}'
-        if used == ['errno']:
-            return 'host-table:errno@' + ('handle_pipe' if name == 'BSC_pipe' else 'serialize_result')
+        if s[0] not in t['sig']:
+            return 'RAISED', None
+        toks[0] = t['sig'][s[0]]
+    elif name in ('BSC_socket', 'BSC_socketpair', 'BSC_socket_delegate'):
+        if s[0] not in t['af'] or s[1] not in t['kind']:
+            return 'RAISED', None
+        toks[0], toks[1] = t['af'][s[0]], t['kind'][s[1]]
+    elif name in ('BSC_getsockopt', 'BSC_setsockopt'):
+        if s[1] == t['sol']:
+            names = {v: k for k, v in D.frozen_enum('bsd.SocketOptionName').items()}
+            if s[2] not in names:
+                return 'RAISED', None
+            toks[1], toks[2] = 'SOL_SOCKET', names[s[2]]
+        else:
+            toks[1], toks[2] = str(s[1]), str(s[2])
+    return clause, toks
+
+
+def explained_by_table_lookup(name, s, e, cfg, text):
+    """True iff `text` is exactly what looking the values up in cfg's tables produces, given the rest of the rendering."""
+    from mc.callstyle import split_call
+    clause, toks = predict_tokens(name, s, e, tables(cfg))
+    if clause == 'RAISED':
+        return text == 'RAISED ValueError', None
+    if text.startswith('RAISED'):
+        return False, None
+    sc = split_call(text)
+    if sc is None:
+        return False, None
+    fn, tokens, rest = sc
+    for pos, want in toks.items():
+        if pos >= len(tokens) or tokens[pos] != want:
+            return False, None
+        tokens[pos] = '{T%d}' % pos
+    found = ERR_CLAUSE.findall(rest)
+    if clause is None:
+        if found:
+            return False, None
+    else:
+        if found != [clause]:
+            return False, None
+        rest = rest.replace(clause, '{ERR}')
+    return True, (fn, tuple(tokens), rest)
+
+
+def classify(name, cfg, a, b, s, e):
+    """signature of a difference between text a (real host) and b (configuration cfg). A difference is the known mechanism
+    (K2) only if BOTH texts are exactly what a by-value lookup in the respective host table produces and they agree on
+    everything else; the signature then names the seam and the call site. Anything else is a different violation."""
+    oka, tpla = explained_by_table_lookup(name, s, e, 'real', a)
+    okb, tplb = explained_by_table_lookup(name, s, e, cfg, b)
+    if oka and okb and (tpla is None or tplb is None or tpla == tplb):
+        ta, tb = tables('real'), tables(cfg)
+        ca, toka = predict_tokens(name, s, e, ta)
+        cb, tokb = predict_tokens(name, s, e, tb)
+        if toka != tokb or 'RAISED' in (ca, cb):
+            seam = 'Signals' if name == 'BSC_sigaction' else 'socket'
+            return f'host-table:{seam}@{SITE[name]}'
+        return 'host-table:errno@' + ('handle_pipe' if name == 'BSC_pipe' else 'serialize_result')
     return f'host-dependent-output:{cfg.split(":")[1]}@{name}'
 
 
@@ -174,8 +233,8 @@ BASE_S = (0x1111, 0x2222, 0x3333, 0x4444)
 class C18(Check):
     pid = 'C18'
     level = 'model_checking'
-    rule = ('host configurations = {real host} + {Darwin, FreeBSD-like, empty} x {errno only, Signals only, socket only, all three} '
-            '(13 configurations), installed by rebinding the names in pykdebugparser.trace_handlers.bsd inside the worker and '
+    rule = ('host configurations = {real host} + {Darwin, FreeBSD-like, empty, sparse (Windows-like)} x {errno only, Signals only, socket only, all three} '
+            '(17 configurations), installed by rebinding the names in pykdebugparser.trace_handlers.bsd inside the worker and '
             'restored after each case. Inputs: every BSD decoder x END error word 0..255 and 9999; sigaction x signal 0..40; '
             'socket/socketpair/socket_delegate x family 0..45 x type 0..7; get/setsockopt x level {0,1,6,0xffff} x every declared '
             'SO_ option + 2 undeclared. Oracle: the rendered text (or the exception type) is identical under every configuration. '
@@ -184,7 +243,8 @@ class C18(Check):
             'whose rendering shows a host-table name under at least one configuration.')
     assumptions = ('the host is modelled by the interpreter tables the code imports today plus the import scan; a dependency through '
                    'another channel (environment variable read in a C extension) is not modelled',
-                   'signature of a difference = (seam, call site) when the texts differ only in the table-derived token')
+                   'signature of a difference = (seam, call site) only when both texts are exactly what a by-value lookup in the respective host '
+                   'table produces (predicted token by token) and agree on everything else; any other difference gets its own signature')
 
     def bounds(self):
         return {'configurations': [c for c, _ in configurations()]}
@@ -206,7 +266,7 @@ class C18(Check):
                      state=h64(cfg), outcome=h64((name, txt == base)))
             if txt != base:
                 interesting = True
-                acc.violation(classify(name, cfg, base, txt), {'decoder': name, 'start': [hex(x) for x in s], 'end': [hex(x) for x in e],
+                acc.violation(classify(name, cfg, base, txt, s, e), {'decoder': name, 'start': [hex(x) for x in s], 'end': [hex(x) for x in e],
                                                                'config': cfg}, {'real_host': base, 'under_config': txt})
         if interesting and acc.want_sample():
             acc.sample({'decoder': name, 'end': [hex(x) for x in e], 'real_host_text': base})
@@ -249,7 +309,7 @@ class C18(Check):
         sub = dict(configurations())[case['config']]
         with Host(sub):
             txt = render(case['decoder'], s, e)
-        return [(classify(case['decoder'], case['config'], base, txt), {'real_host': base, 'under_config': txt})] if txt != base else []
+        return [(classify(case['decoder'], case['config'], base, txt, s, e), {'real_host': base, 'under_config': txt})] if txt != base else []
 
 
 if __name__ == '__main__':
